@@ -11,7 +11,9 @@ var AtomsQ = []string{"0", "2", "2.5", `""`, `"a"`, "true", "false", "nil"}
 var AtomsT = append(append([]string{}, AtomsQ...),
 	"1", "7", "0x10", "010", "9223372036854775807", "0.0", "1e2", "1e21", "2.5e-7", `"b"`, `"a\tb"`, `"10"`, `"c\\"`,
 	// strings whose content is spelled like another literal / keyword / identifier of the program
-	`"2.5"`, `"1e2"`, `"true"`, `"nil"`, `"vi"`)
+	`"2.5"`, `"1e2"`, `"true"`, `"nil"`, `"vi"`,
+	// strings that look like format directives
+	`"100%"`, `"%d%s%%"`)
 
 var BinOps = []string{"+", "-", "*", "/", "==", "!=", "<", "<=", ">", ">=", "and", "or"}
 var PreOps = []string{"-", "+", "not"}
@@ -244,6 +246,9 @@ func Core() []string {
 	for _, s := range ChildAsField() {
 		add(s)
 	}
+	for _, s := range CollidingNames() {
+		add(s)
+	}
 	// constants of every kind in one program (for dump/load)
 	add(`def k "nm" { i = 42; n = 0 - 42; big = 9223372036854775807; f = 2.5; g = 1e21; h = 5e-324; s = "str"; e = ""; t = true; u = false; z = nil; def in { q = i } }; bind k -> struct`)
 	coreCache = out
@@ -365,12 +370,15 @@ func ScaledFamilies(big bool) []Scaled {
 		add(fmt.Sprintf("opbyte-block-var-%d", n), "def b {\n"+v.String()+"var z = "+last+"\n}\nprint 1")
 		add(fmt.Sprintf("opbyte-block-field-%d", n), "def b {\n"+v.String()+"f = "+last+"\n}\nprint 2")
 		add(fmt.Sprintf("opbyte-nested-%d", n), v.String()+"def b { var w = "+last+"; def c { var u = w } }")
+		// the operand is followed by operator bytes: prefix operators (doubled, over comparisons), comparisons, short-circuit
+		add(fmt.Sprintf("opbyte-ops-%d", n), v.String()+"print not not "+last+"\nprint not "+last+"\nprint - - "+last+"\nprint not (1 != "+last+")\nprint 1 <= "+last+"\nprint "+last+" >= 1\nprint not "+last+" == "+last+"\nprint "+last+" and not not "+last+"\ndef b { f = not not "+last+"; g = not not f }")
 		// constants: the n-th constant used last
 		var cs strings.Builder
 		for i := 0; i < n; i++ {
 			fmt.Fprintf(&cs, "print %d\n", i+200)
 		}
 		add(fmt.Sprintf("opbyte-const-%d", n), cs.String()+"var z = 999")
+		add(fmt.Sprintf("opbyte-const-ops-%d", n), cs.String()+"print not not 999\nprint not (1 != 998)\ndef b { fld = 5; g = not not fld; h = not not 997 }")
 		add(fmt.Sprintf("opbyte-const-block-%d", n), cs.String()+"def b { var z = 999 }")
 	}
 	// every pushing instruction kind exactly at the operand-stack limit
@@ -517,6 +525,32 @@ func ChildAsField() []string {
 				out = append(out, src)
 			}
 		}
+	}
+	return out
+}
+
+// CollidingNames: pairs of different identifiers that collide under the usual string hash functions (FNV-1a 32,
+// FNV-1 32, djb2, Java's 31-hash, CRC-32) or differ only where a sloppy comparison would not look (length, case,
+// a common prefix of 8 / 16 / 32 bytes): one is a variable, the other must stay a field / undefined / another variable.
+func CollidingNames() []string {
+	long := strings.Repeat("n", 32)
+	pairs := [][2]string{
+		{"costarring", "liquid"}, {"declinate", "macallums"}, {"altarage", "zinke"}, {"altarages", "zinkes"}, // FNV-1a 32
+		{"hetairas", "mentioner"}, {"heliotropes", "neurospora"}, {"depravement", "serafins"}, {"stylist", "subgenera"}, {"joyful", "synaphea"}, {"redescribed", "urites"}, {"dram", "vivency"}, // djb2
+		{"Aa", "BB"}, {"AaAa", "BBBB"}, {"AaBB", "BBAa"}, // 31-hash
+		{"plumless", "buckeroo"}, // CRC-32
+		{"abcdefgh1", "abcdefgh2"}, {"abcdefghijklmnop1", "abcdefghijklmnop2"}, {long + "a", long + "b"}, {"name", "Name"}, {"ab", "abc"}, {"x_1", "x1"},
+	}
+	var out []string
+	for _, p := range pairs {
+		a, b := p[0], p[1]
+		out = append(out,
+			"var "+a+" = 1\nprint "+b,                                        // b is undefined
+			"var "+a+" = 1\ndef blk { "+b+" = 2; print "+a+"; print "+b+"; g = "+a+" + "+b+" }\nprint "+a, // b is a field
+			"var "+a+" = 1\nvar "+b+" = 2\n"+a+" = 10\nprint "+a+" + "+b+"\ndef blk { "+a+" = "+b+"; x = "+a+" }\nprint "+a,
+			"def blk { "+a+" = 1; def in { "+b+" = 2; r = "+a+"; s = "+b+" }; t = "+a+" }",
+			"def "+a+" { x = 1 }\ndef "+b+" { x = 2 }\nbind "+a+" -> struct",
+		)
 	}
 	return out
 }
